@@ -601,12 +601,12 @@ fn classify(s: &[Fe], hist: &[Fe], removed: &[Front], w: &[&Fe], x: &str, host: 
     let dup_equals = hist.iter().any(|fe| fe.f.kind == 2 && host_matches(&fe.f, host) && !s.iter().any(|g| g.id == fe.id)
         && s.iter().any(|g| same_key(&g.f, &fe.f)));
     let fallback = |alarm: &str| -> String {
-        if stale_equals {
+        if re_involved {
+            regex_class.clone()
+        } else if stale_equals {
             "equals-rule-not-removed".into()
         } else if dup_equals {
             "equals-rule-not-deduplicated".into()
-        } else if re_involved {
-            regex_class.clone()
         } else {
             alarm.into()
         }
@@ -972,7 +972,7 @@ impl Area for RouterArea {
         if thorough {
             120_000
         } else {
-            3_000
+            2_400
         }
     }
     fn corpus(&self) -> Vec<Vec<String>> {
